@@ -76,6 +76,13 @@ def _rel(idx, a, b):
     return "a-first" if refpred.before(idx, a, b) else "b-first"
 
 
+def _lcp(a, b):
+    k = 0
+    while k < min(len(a), len(b)) and a[k] == b[k]:
+        k += 1
+    return a[:k]
+
+
 def _instances(cg):
     inst = [(p, ()) for p in BINARY]
     inst += [("nth", (n,)) for n in (1, 2, 3, 4)]
@@ -129,8 +136,13 @@ def check_pair(r, P, gname, root, dt, idx, name, extra, a, b, entry, graph=None,
     r.outcomes[f"{name}:{exp}"] += 1
     if got != exp:
         rel = _rel(idx, a, b)
+        key = f"{name}/{rel}/expected-{exp}-got-{got}/{entry}"
+        if name == "consecutive" and exp is False and got is True and rel == "a-first" and _lcp(a, b) != ():
+            # one root cause through every entry point: leaves below the longest common prefix are
+            # enumerated with paths relative to it but compared with absolute argument paths
+            key = "consecutive/leaf-in-between-missed/common-prefix-not-root"
         r.viol(
-            f"{name}/{rel}/expected-{exp}-got-{got}/{entry}",
+            key,
             f"{name}{extra} on paths {a} vs {b} ({rel}) in tree {tstr(root)!r}: reference {exp}, isla {got} [{entry}]",
             _case(gname, root, name, extra, a, b, entry),
             exp,
@@ -212,10 +224,11 @@ def run_chunk(chunk):
                             continue
                         check_pair(r, P, gname, root, dt, idx, name, extra, a, b, "direct")
                 if chunk["via_eval"] and gname != "wide":
-                    ntp = [p for p in allp if is_nt(at(root, p)[0])]
-                    for a, b in itertools.product(ntp, repeat=2):
+                    for a, b in itertools.product(allp, repeat=2):
                         for name, extra in inst:
                             if name == "level" and extra[0] not in ("EQ", "GT"):
+                                continue
+                            if name == "nth" and not is_nt(at(root, a)[0]):
                                 continue
                             check_pair(r, P, gname, root, dt, idx, name, extra, a, b, "formula", graph=graph, grammar=g)
                     _quant_checks(r, P, gname, g, cg, root, dt, idx, graph)
